@@ -1043,4 +1043,7 @@ func TestVerifC18(t *testing.T) {
 		}
 		c18hRunHistory(t, out, r, in, ops)
 	}
+
+	// ---- the request side: ApplyAdditionalFiltering with a client table
+	c18rRun(t, out, pool, unknown)
 }
